@@ -1,7 +1,51 @@
-(* family 4: stub, to be filled *)
+(* family 4: CDS short timestamps (C14) *)
 From Coq Require Import ZArith List Bool.
-From SP Require Import Base.Result Base.Bytes Run.Marshal.
+From SP Require Import Base.Result Base.Bytes Run.Marshal Model.Cds Model.CdsSoftFloat Model.CdsFloat Spec.CdsSpec.
 Import ListNotations.
 Open Scope Z_scope.
 
-Definition run_cds (op : Z) (a : args) : args := [[1; 97]].
+Definition cds_of (l : list Z) : cds := cds_new (nth 0 l 0) (nth 1 l 0).
+Definition cds_fields (t : cds) : list Z := [cdays t; cms t].
+Definition fl_fields (x : fl) : list Z := [fm x; fe x].
+Definition fl_of (l : list Z) : fl := rne2 (nth 0 l 0) (nth 1 l 0).
+Definition cds_views (t : cds) : args :=
+  [cds_fields t; fl_fields (cds_unix_seconds t); [cds_datetime_us t]].
+
+Fixpoint triples (l : list Z) : list (Z * Z * Z) :=
+  match l with
+  | d :: s :: u :: r => (d, s, u) :: triples r
+  | _ => []
+  end.
+
+Definition run_cds (op : Z) (a : args) : args :=
+  match op with
+  | 400 => let t := cds_of (lst 0 a) in
+           ret (fun c => [cds_fields t; [cds_len_packed t]; cds_pfield; [c]]) (cds_time_code t)
+  | 401 => ret (fun b => [b]) (cds_pack (cds_of (lst 0 a)))
+  | 402 => ret cds_views (cds_unpack (lst 0 a))
+  | 403 => ret (fun p => [[fst p; snd p]]) (cds_unpack_from_raw (lst 0 a))
+  | 404 => ret cds_views (cds_unpack (lst 0 a))          (* empty().read_from_raw(data) *)
+  | 405 => ret cds_views (cds_add (cds_of (lst 0 a)) (int 1 0 a) (int 1 1 a) (int 1 2 a))
+  | 406 => let t := cds_from_datetime (int 0 0 a) (int 0 1 a) (int 0 2 a) in
+           [[0]; cds_fields t; fl_fields (dt_timestamp (int 0 0 a) (int 0 1 a) (int 0 2 a));
+            [dt_instant_us (int 0 0 a) (int 0 1 a) (int 0 2 a)]]
+  (* from_datetime on the same instant expressed in another fixed-offset time zone (lst 1 = offset
+     in minutes): the model does not depend on it *)
+  | 416 => let t := cds_from_datetime (int 0 0 a) (int 0 1 a) (int 0 2 a) in
+           [[0]; cds_fields t; fl_fields (dt_timestamp (int 0 0 a) (int 0 1 a) (int 0 2 a));
+            [dt_instant_us (int 0 0 a) (int 0 1 a) (int 0 2 a)]]
+  | 417 => ret (fun t => cds_views t ++ [[cds_len_packed t]])
+             (cds_add_all (cds_of (lst 0 a)) (triples (lst 1 a)))
+  | 407 => [0] :: cds_views (cds_of (lst 0 a))
+  | 409 => [[0]; [cds_ms_of_today (fl_of (lst 0 a))]]
+  | 410 => [[0]; cds_fields (cds_from_unix_days (int 0 0 a) (int 0 1 a));
+            [convert_unix_days_to_ccsds_days (int 0 0 a); convert_ccsds_days_to_unix_days (int 0 0 a)]]
+  | 411 => [[0]; [b2z (cds_eqb (cds_of (lst 0 a)) (cds_of (lst 1 a)))]]
+  | 412 => ret (fun b => [b]) (do t <- cds_unpack (lst 0 a); cds_pack t)
+  | 413 => ret (fun t => [cds_fields t]) (do b <- cds_pack (cds_of (lst 0 a)); cds_unpack b)
+  (* Spec side *)
+  | 450 => [[0]; cds_layout (cds_of (lst 0 a))]
+  | 451 => [[0]; [cds_instant_ms (cds_of (lst 0 a))]]
+  | 452 => [[0]; cds_fields (cds_of_instant_ms (int 0 0 a))]
+  | _ => [[1; 97]]
+  end.
